@@ -507,11 +507,37 @@ def family_log3(tier='thorough'):
                 yield ('log3 %s(%s(%s))' % (pn, cn, an), Model(V3, lcons=[pf(cf(a))], obj=('min', None, {0: 1.0, 1: 1.0, 2: 1.0})))
 
 
+def family_unbounded():
+    """variables without (some) bounds: the converter either refuses (bounds / big-M needed) or, e.g. under cvt:bigM,
+    delivers a model that must agree with the NL model on the explored window of the unbounded domain"""
+    VFREE = [(-INF, INF, False, 0.5), (-INF, INF, True, 1.0), (0.0, 1.0, True, 1.0)]
+    VHALF = [(0.0, INF, False, 0.5), (-INF, 2.0, True, 1.0), (0.0, 1.0, True, 1.0)]
+    for vn, V in (('free', VFREE), ('half', VHALF)):
+        ms = [('or', Model(V, lcons=[('or', ('ge', X, N(1)), ('le', Y, N(1)))])),
+              ('x*b', Model(V, acons=[(('mul', X, B), {}, -INF, 1.0)])),
+              ('if', Model(V, acons=[(('if', ('ge', B, N(1)), X, Y), {}, -INF, 1.0)])),
+              ('max', Model(V, acons=[(('max', X, Y), {}, 1.0, INF)])),
+              ('min-obj', Model(V, acons=[(None, {0: 1.0, 1: 1.0}, -INF, 3.0)], obj=('max', ('min', X, Y), {}))),
+              ('abs', Model(V, acons=[(('abs', X), {}, 1.0, INF)])),
+              ('iff', Model(V, lcons=[('iff', ('ge', X, N(1)), ('ge', B, N(1)))])),
+              ('impl', Model(V, lcons=[('impl', ('ge', B, N(1)), ('le', Y, N(1)), ('ge', X, N(0)))])),
+              ('impl-ge', Model(V, lcons=[('impl', ('ge', B, N(1)), ('ge', Y, N(1)), ('b', True))])),
+              ('impl-le', Model(V, lcons=[('impl', ('ge', B, N(1)), ('le', ('add', X, Y), N(1)), ('b', True))])),
+              ('count', Model(V, acons=[(('count', ('ge', X, N(1)), ('le', Y, N(1))), {}, 1.0, INF)])),
+              ('ne', Model(V, lcons=[('ne', X, N(1))])),
+              ('lt', Model(V, lcons=[('or', ('lt', Y, N(1)), ('ge', B, N(1)))])),
+              ('eq-reif', Model(V, lcons=[('or', ('eq', X, N(1)), ('ge', B, N(1)))])),
+              ('numberof', Model(V, acons=[(('numberof', X, B, N(1)), {}, 1.0, INF)])),
+              ('pl', Model(V, acons=[(('pl', (-1.0, 1.0, 2.0), (0.0, 1.0), X), {}, -INF, 1.0)]))]
+        for nm, m in ms:
+            yield ('unbounded %s %s' % (vn, nm), m)
+
+
 FAMILIES = {
     'shapes': family_shapes, 'sharing': family_sharing, 'canon': family_canon, 'uenc': family_uenc,
     'bounds': family_bounds, 'linmix': family_linear_mix, 'alldiffcont': family_alldiff_cont,
     'compl': family_compl, 'sos': family_sos, 'dvars': family_dvars, 'fracint': family_fracint,
-    'cones': family_cones, 'pl': family_pl, 'affprod': family_affprod, 'alg3': family_alg3, 'log3': family_log3,
+    'cones': family_cones, 'pl': family_pl, 'affprod': family_affprod, 'alg3': family_alg3, 'log3': family_log3, 'unbounded': family_unbounded,
 }
 
 
